@@ -114,6 +114,29 @@ class World:
 STALE = int(15 * 60 * 1e9)
 
 
+class _JobStuck(Exception):
+    """a page job (the real Disk code plus the manager's callback) did not return: it waits for a lock it can never get"""
+
+
+def _run_job(fn, *args, seconds=6.0):
+    """the pool thread's work, run under a deadline: a job that never returns holds the manager's locks for ever (every later request answers 'wait')"""
+    import threading
+    box = {}
+
+    def body():
+        try:
+            fn(*args)
+        except BaseException as e:  # noqa
+            box["exc"] = e
+    t = threading.Thread(target=body, daemon=True)
+    t.start()
+    t.join(seconds)
+    if t.is_alive():
+        raise _JobStuck(f"{getattr(fn, '__name__', fn)}{tuple(a for a in args if isinstance(a, (str, int)))} did not return within {seconds} s")
+    if "exc" in box:
+        raise box["exc"]
+
+
 def check_invariants(w: World, trace, failures, after):
     m = w.m
     res = w.resident()
@@ -246,18 +269,18 @@ def step(w: World, op, failures):
                 w.stale_out.discard(shmid)
                 w.stale_completed = True  # known finding: the job's callback acts on a dataset that was purged (and maybe re-added)
             if ok:
-                w.m.disk._page_out(shmid, cb)  # REAL disk code: segment -> file, unlink, callback
+                _run_job(w.m.disk._page_out, shmid, cb)  # REAL disk code: segment -> file, unlink, callback
             elif ok is None:
                 # the write itself fails (spill directory gone): the REAL _page_out runs into the error and reports it
                 import types
                 real_root = w.m.disk.root
                 w.m.disk.root = types.SimpleNamespace(name=real_root.name + "/gone", cleanup=real_root.cleanup)
                 try:
-                    w.m.disk._page_out(shmid, cb)
+                    _run_job(w.m.disk._page_out, shmid, cb)
                 finally:
                     w.m.disk.root = real_root
             else:
-                cb(False)
+                _run_job(cb, False)
         else:
             w.reserved_in.pop(shmid, None)
             if ok == "nofile":
@@ -267,12 +290,12 @@ def step(w: World, op, failures):
                     os.remove(f"{w.m.disk.root.name}/{shmid}")
                 except OSError:
                     pass
-                w.m.disk._page_in(shmid, size, cb)
+                _run_job(w.m.disk._page_in, shmid, size, cb)
             elif ok:
-                w.m.disk._page_in(shmid, size, cb)  # REAL disk code: file -> new segment, callback
+                _run_job(w.m.disk._page_in, shmid, size, cb)  # REAL disk code: file -> new segment, callback
             else:
                 before = w.m.free_space
-                cb(False)
+                _run_job(cb, False)
                 if w.m.free_space == before and shmid not in w.segs.t:
                     w.leak += size
         _sync_forgotten(w)
@@ -336,6 +359,11 @@ def run_sequence(capacity, choose, length, keys, sizes):
             op = ops[choose(len(ops))]
             try:
                 d = step(w, op, failures)
+            except _JobStuck as e:
+                failures.append(("C09", "C09/evictable-request-eventually-granted", f"{op}: {e} - the job holds the manager's locks for ever: every later request that needs eviction is answered 'wait'", "other"))
+                failures.append(("C08", "C08/manager-operation-raised", f"{op}: {e}", "other"))
+                w.stuck = True
+                break
             except Exception as e:  # noqa
                 import traceback
                 failures.append(("C08", "C08/manager-operation-raised", f"{op}: {type(e).__name__}: {e} | {traceback.format_exc().splitlines()[-3:]}", "other"))
@@ -349,7 +377,7 @@ def run_sequence(capacity, choose, length, keys, sizes):
             if any(f[3] == "other" for f in failures) or len(failures) > 3:
                 break
         _stuck(w, failures)
-        if not failures:
+        if not failures and not getattr(w, "stuck", False):
             liveness(w, failures, trace)
     finally:
         w.close()
@@ -357,6 +385,8 @@ def run_sequence(capacity, choose, length, keys, sizes):
 
 
 def _stuck(w, failures):
+    if getattr(w, "stuck", False):
+        return
     """C09 last sentence (safety core): a dataset left in 'paging_out' with no page-out job pending can never be evicted, read or
     reclaimed - every request that needs its memory is answered 'wait' for ever"""
     if w.stale_completed:
@@ -388,13 +418,18 @@ def liveness(w: World, failures, trace):
         if err != "wait":
             return
         track_page_in(w)
-        while w.pending:
-            k, s_id, sz, cb = w.pending.pop(0)
-            if k == "out":
-                m.disk._page_out(s_id, cb)
-            else:
-                w.reserved_in.pop(s_id, None)
-                m.disk._page_in(s_id, sz, cb)
+        try:
+            while w.pending:
+                k, s_id, sz, cb = w.pending.pop(0)
+                if k == "out":
+                    _run_job(m.disk._page_out, s_id, cb)
+                else:
+                    w.reserved_in.pop(s_id, None)
+                    _run_job(m.disk._page_in, s_id, sz, cb)
+        except _JobStuck as e:
+            failures.append(("C09", "C09/evictable-request-eventually-granted", f"liveness probe: {e} - the job holds the manager's locks for ever", "other"))
+            w.stuck = True
+            return
         check_invariants(w, trace, failures, ["liveness-retry", attempt])
         if failures:
             return
@@ -425,6 +460,9 @@ SCRIPTS = [
     # one dataset of each kind (never read, read once, read at two different times), then the probe asks for the whole capacity
     (6, [("add", "a", 2), ("fin_write", "a"), ("add", "b", 2), ("fin_write", "b"), ("add", "c", 2), ("fin_write", "c"), ("get", "b"), ("fin_read", "b"),
          ("get", "c"), ("fin_read", "c"), ("tick",), ("get", "c"), ("fin_read", "c"), ("tick",)]),
+    # the known finding (known_findings.json, failed-pageout-with-stale-reader), reproduced deterministically so that its KNOWN-FINDING line does not depend on
+    # how far the time-budgeted random walks get: a dataset with a stale reader is evicted, the page-out fails
+    (4, [("add", "a", 3), ("fin_write", "a"), ("get", "a"), ("tick",), ("add", "b", 3), ("complete", 0, False)]),
     # eviction attempt that finds nothing evictable, later one that does
     (4, [("add", "a", 3), ("add", "b", 3), ("fin_write", "a"), ("get", "a"), ("add", "b", 3), ("fin_read", "a"), ("add", "b", 3), ("complete", 0, True), ("add", "b", 3)]),
 ]
@@ -439,6 +477,11 @@ def run_script(cap, script, available=1 << 40):
                 continue
             try:
                 d = step(w, op, failures)
+            except _JobStuck as e:
+                failures.append(("C09", "C09/evictable-request-eventually-granted", f"{op}: {e} - the job holds the manager's locks for ever: every later request that needs eviction is answered 'wait'", "other"))
+                failures.append(("C08", "C08/manager-operation-raised", f"{op}: {e}", "other"))
+                w.stuck = True
+                break
             except Exception as e:  # noqa
                 failures.append(("C08", "C08/manager-operation-raised", f"{op}: {type(e).__name__}: {e}", "other"))
                 break
@@ -608,6 +651,11 @@ def replay_case(doc):
                 continue
             try:
                 r = step(w, op, failures)
+            except _JobStuck as e:
+                failures.append(("C09", "C09/evictable-request-eventually-granted", f"{op}: {e} - the job holds the manager's locks for ever: every later request that needs eviction is answered 'wait'", "other"))
+                failures.append(("C08", "C08/manager-operation-raised", f"{op}: {e}", "other"))
+                w.stuck = True
+                break
             except Exception as e:  # noqa
                 failures.append(("C08", "C08/manager-operation-raised", f"{op}: {type(e).__name__}: {e}", "other"))
                 break
